@@ -25,6 +25,8 @@ def convention(b):
     has_crlf = b'\r\n' in b
     rest = b.replace(b'\r\n', b'')
     if has_crlf:
+        if b.endswith(b'\r') and rest.count(b'\r') == 1 and b'\n' not in rest:
+            return 'crlf'       # a CRLF text cut between the CR and the LF of its last line end: still a CRLF text
         return 'crlf' if (b'\r' not in rest and b'\n' not in rest) else None
     if b'\r' in b and b'\n' in b:
         return None
@@ -48,6 +50,8 @@ def spec_line_text(b, i, conv):
     if conv == 'crlf' and i > 0 and b[i - 1:i + 1] == b'\r\n':   # index on the \n of a terminator
         e = i - 1
     end = len(b) if e < 0 else e
+    if conv == 'crlf' and e < 0 and b.endswith(b'\r'):
+        end = max(start, len(b) - 1)       # the CR of a line end that was cut off is not part of the line
     return b[start:end]
 
 
